@@ -667,6 +667,18 @@ fn check(ctx: &mut Ctx, p: &Program, idx: u64, r: &mut Rng) {
         let lost = !matches!(out0, Outcome::Rejected(_)) && matches!(&out1, Outcome::Rejected(why) if *why == "type-check-rejected");
         let key = if (d3_applicable(holes, &obs0) || d3_applicable(holes, &obs1)) && !explicit {
             D3_KEY.to_owned()
+        } else if lost
+            && holes
+            && !explicit
+            && applied.iter().any(|k| k.starts_with("name-") || k.starts_with("unused-definition") || *k == "hoist-literal-arithmetic")
+            && matches!(&obs1.front, Front::TypeErr(ms) if ms.first().is_some_and(|m| {
+                // the type of an unannotated definition came out wrapped in the definitions of
+                // an inner group (`(t : type = ...; f : ... = ...; t) -> int`)
+                let head = m.lines().next().unwrap_or("");
+                head.contains("but it was expected to have type `_`") && head.split("This has type `").nth(1).is_some_and(|t| t.contains(" = ") && t.contains("; "))
+            }))
+        {
+            crate::typed::D20_KEY.to_owned()
         } else if lost && holes && !explicit && obs1.hooks.shift_unresolved_refused > obs0.hooks.shift_unresolved_refused {
             // the rewrite made unification move a term that still contains an unresolved hole to
             // an outer scope, which `signed_shift` refuses
@@ -680,8 +692,8 @@ fn check(ctx: &mut Ctx, p: &Program, idx: u64, r: &mut Rng) {
             &key,
             &format!("after [{}] the outcome changed from {out0:?} to {out1:?}", applied.join(", ")),
             Json::obj()
-                .set("original", Json::s(&clip(&src0, 2500)))
-                .set("rewritten", Json::s(&clip(&src1, 2500)))
+                .set("original", Json::s(&clip(&src0, 30000)))
+                .set("rewritten", Json::s(&clip(&src1, 30000)))
                 .set("hooks_original", Json::s(&format!("{:?}", obs0.hooks)))
                 .set("hooks_rewritten", Json::s(&format!("{:?}", obs1.hooks))),
         );
